@@ -30,7 +30,7 @@ func buildFlow(c *core.Ctx) *flow.Graph {
 	}
 	optT := c.P.LookupType(optionsPkg, "Options")
 	g.ExternalWrites = func(call *ssa.Call) (string, []types.Type) {
-		cal := call.Call.StaticCallee()
+		cal := core.Callee(&call.Call)
 		if cal == nil || !strings.HasSuffix(cal.String(), "gcfg.v1.ReadInto") || optT == nil {
 			return "", nil
 		}
@@ -94,12 +94,12 @@ func ruleDateLayouts(c *core.Ctx, rule string) {
 		for _, b := range fn.Blocks {
 			for _, in := range b.Instrs {
 				call, ok := in.(*ssa.Call)
-				if !ok || call.Call.StaticCallee() == nil {
+				if !ok || core.Callee(&call.Call) == nil {
 					continue
 				}
 				var layout ssa.Value
 				kind := ""
-				switch call.Call.StaticCallee().String() {
+				switch core.Callee(&call.Call).String() {
 				case "time.Parse":
 					layout, kind = call.Call.Args[0], "time.Parse"
 				case "(time.Time).Format":
